@@ -4,8 +4,8 @@ from ..stage import LineStage, replay_line
 from .common import *
 from . import c01, c02, c03, c09
 
-ARTEFACTS = ["G1-consts", "G2-rs-portable", "G3-arith", "G4-listings", "G9-update"]
-EXTRA_PROPS = [("B3.Props.C01T", "B3/Props/C01T.lean")]   # theorems about the code translated from the sources
+ARTEFACTS = ["G1-consts", "G2-rs-portable", "G3-arith", "G4-listings", "G9-update", "G22-dispatch"]
+EXTRA_PROPS = [("B3.Props.C01T", "B3/Props/C01T.lean"), ("B3.Props.C04T", "B3/Props/C04T.lean")]   # theorems about the code translated from the sources
 RULE = ("every script of the C01/C02/C03/C09 generators is replicated at each forced platform {portable, sse2, sse41, avx2, avx512} "
         "(hook: thread-local override in Platform::detect) and compared with the ONE Lean model (whose SIMD degree is a parameter) and "
         "the spec, which makes all levels equal to each other; the same scripts run against a `pure` build (Rust intrinsics, no "
